@@ -1,5 +1,7 @@
 """Shared helpers for the bounded stand-in (stratum B): guarded construction, outcome capture,
 conversion of parglare trees."""
+import contextlib
+import io
 import sys
 
 import parglare
@@ -45,17 +47,47 @@ def build(cls, grammar, budget=4000, **kw):
     p0 = grammar.productions[0]
     old_rhs = p0.rhs
     try:
-        with closure_budget(budget):
-            return cls(grammar, **kw)
+        # parglare prints the whole table on conflicts (print_debug); keep the check's stdout clean
+        with closure_budget(budget), contextlib.redirect_stdout(io.StringIO()):
+            return guard_steps(cls(grammar, **kw))
     except BudgetExceeded:
         p0.rhs = old_rhs
         raise
 
 
+class StepBudgetExceeded(Exception):
+    pass
+
+
+def guard_steps(parser, budget=3000):
+    """Instance-level counting wrappers around the reduce step of the LR driver / GLR reducer: a
+    divergence detector (step budget, not a wall clock).  Counter is reset by outcome()."""
+    if getattr(parser, "_verif_guarded", False):
+        return parser
+    box = {"n": 0, "budget": budget}
+    parser._verif_steps = box
+    name = "_reduce" if hasattr(parser, "_do_reductions") else "_call_reduce_action"
+    orig = getattr(parser, name)
+
+    def counted(*a, **kw):
+        box["n"] += 1
+        if box["n"] > box["budget"]:
+            raise StepBudgetExceeded(box["n"])
+        return orig(*a, **kw)
+    setattr(parser, name, counted)
+    parser._verif_guarded = True
+    return parser
+
+
 def outcome(fn, *a, **kw):
-    """('ok', result) | ('syntax', exc) | ('exc', exc)"""
+    """('ok', result) | ('syntax', exc) | ('exc', exc) | ('budget', exc)"""
+    owner = getattr(fn, "__self__", None)
+    if owner is not None and getattr(owner, "_verif_guarded", False):
+        owner._verif_steps["n"] = 0
     try:
         return ("ok", fn(*a, **kw))
+    except StepBudgetExceeded as e:
+        return ("budget", e)
     except parglare.SyntaxError as e:
         return ("syntax", e)
     except RecursionError as e:
